@@ -460,6 +460,7 @@ func TestC06(t *testing.T) {
 	if !run.Replaying() {
 		run.Require("e2e-end|refuted", "e2e-end|resuspected-then-timer", "e2e-end|foreign-dead")
 	}
+	run.Complete()
 	if run.Violations() > 0 {
 		t.Errorf("%d violation(s)", run.Violations())
 	}
